@@ -164,6 +164,24 @@ def h_fidelity(eng, tier, lang):
                         missing.append('type parameter %s of function %s' % (tpar.name, n.name))
                         break
                 eng.event('generic-function-checked')
+        if lang == 'java':
+            # a nested function is printed as  <FunctionN<...>> name = (p1, ..., pn) -> ...: the lambda lists exactly the declared
+            # parameter names and the type in front of the name is bracket-balanced
+            for n in all_nodes(p0):
+                if not isinstance(n, ast.FunctionDeclaration) or not isinstance(n.body, ast.Block):
+                    continue
+                for inner in n.body.body:
+                    if not isinstance(inner, ast.FunctionDeclaration):
+                        continue
+                    heads = [l for l in lines if (' %s = (' % inner.name) in l and '->' in l]
+                    if not heads:
+                        continue
+                    want = '%s = (%s) ->' % (inner.name, ', '.join(prm.name for prm in inner.params))
+                    good = [l for l in heads if want in l and l.split(' %s = (' % inner.name)[0].count('<') ==
+                            l.split(' %s = (' % inner.name)[0].count('>')]
+                    if not good:
+                        missing.append('head of the nested function %s: %s' % (inner.name, heads[0].strip()[:120]))
+                    eng.event('nested-function-head-checked')
         obs.append(Ob('inventory|declared-names-and-literals-occur|%s' % lang, not missing, dict(case, missing=missing[:6])))
         obs.append(Ob('inventory|balanced|%s' % lang, balanced(base), case))
         eng.event('inventory')
